@@ -430,6 +430,20 @@ var kC07BechStr = register(&Kind[c07BechStr]{
 			b[i] = "bio"[rapid.IntRange(0, 2).Draw(t, "f")]
 		case 8: // alias of one character
 			b = []byte(aliasChar(t, string(b)))
+			if rapid.Bool().Draw(t, "otherconst") {
+				// the checksum of another scheme: BIP350's bech32m constant, or some other constant, instead of 1
+				k := rapid.SampledFrom([]uint32{0x2bc830a3, 0, 2, 0x3fffffff, 0x2bc830a2}).Draw(t, "const")
+				vals := append(append(refBech32HrpExpand(hrp), data...), 0, 0, 0, 0, 0, 0)
+				pm := refBech32Polymod(vals) ^ k
+				sum := make([]byte, 6)
+				for i := range sum {
+					sum[i] = byte((pm >> uint(5*(5-i))) & 31)
+				}
+				b = []byte(hrp + "1")
+				for _, d := range append(append([]byte{}, data...), sum...) {
+					b = append(b, b32Charset[d])
+				}
+			}
 		default: // unmodified
 		}
 		return c07BechStr{S: string(b)}
